@@ -47,8 +47,8 @@ func (e *executor[R]) Apply(innerFn func(failsafe.Execution[R]) *common.PolicyRe
 				return cancelResult
 			}
 
-			// Delay
-			delay := e.getDelay(exec)
+			// Delay, computed against a copy of the execution, since a DelayFunc is user code
+			delay := e.getDelay(execInternal.CopyWithResult(result))
 			if e.onRetryScheduled != nil {
 				e.onRetryScheduled(failsafe.ExecutionScheduledEvent[R]{
 					ExecutionAttempt: execInternal.CopyWithResult(result),
